@@ -30,6 +30,9 @@ type Case struct {
 	// version range and suite list are different (TLS 1.0 only, RC4); the returned Config is the
 	// one that "will be used to handle this connection", so the model is unchanged.
 	Indirect bool `json:"indirect,omitempty"`
+	// CloneCfg: bit 0 - the server, bit 1 - the client runs on Config.Clone() of the described
+	// Config (what net/http-style servers and dialers do); a clone is the same configuration.
+	CloneCfg int `json:"clone_cfg,omitempty"`
 }
 
 func indirect(c Case, inner *tls.Config) *tls.Config {
@@ -184,6 +187,14 @@ func check(c Case, r *kit.R) {
 	roots := sv.Roots()
 	cc, sc := cl.Config(roots), sv.Config()
 	cc.Rand, sc.Rand = tlsgen.NewRand(c.Seed, 1, 1), tlsgen.NewRand(c.Seed, 2, 1)
+	if c.CloneCfg&1 != 0 {
+		sc = sc.Clone()
+		r.Class("server runs on Config.Clone()")
+	}
+	if c.CloneCfg&2 != 0 {
+		cc = cc.Clone()
+		r.Class("client runs on Config.Clone()")
+	}
 	sc = indirect(c, sc)
 	if c.Indirect {
 		r.Class("server config through GetConfigForClient")
@@ -508,6 +519,7 @@ func gen(t *rapid.T) Case {
 	c.Seed = rapid.Uint64().Draw(t, "seed")
 	c.Downgrade = rapid.IntRange(0, 2).Draw(t, "downgrade") != 0
 	c.Indirect = rapid.IntRange(0, 3).Draw(t, "indirect") == 0
+	c.CloneCfg = rapid.SampledFrom([]int{0, 0, 0, 1, 2, 3}).Draw(t, "clone-cfg")
 	return c
 }
 
